@@ -120,6 +120,7 @@ def _run(prop, tier, seed, a, t0):
     trusted = set()
     functions = {}
     crashed = []
+    lib_raised = []
     stats = {"paths": 0, "branches": 0, "feas_checks": 0}
     ld = api.loader()
     for prf in proofs:
@@ -140,7 +141,15 @@ def _run(prop, tier, seed, a, t0):
         except Undecided as e:
             eng.undecided.append((prf.name, str(e)))
         except Exception as e:
-            crashed.append((prf.name, "".join(traceback.format_exception_only(type(e), e)).strip(), traceback.format_exc()))
+            msg = "".join(traceback.format_exception_only(type(e), e)).strip()
+            frames = [f for f in traceback.extract_tb(e.__traceback__)
+                      if f.filename.startswith(REPO + os.sep) or f.filename.startswith(os.path.join(VERIF, "contracts") + os.sep)]
+            if frames and frames[-1].filename.startswith(REPO + os.sep):
+                # the real code raised while the harness was setting up / inspecting it (outside h.call) with inputs that
+                # are valid on the unchanged tree: a behaviour change of the code under contract, reported as a violation
+                lib_raised.append((prf.name, msg, traceback.format_exc(), f"{os.path.relpath(frames[-1].filename, REPO)}:{frames[-1].lineno} ({frames[-1].name})"))
+            else:
+                crashed.append((prf.name, msg, traceback.format_exc()))
         for k in stats:
             stats[k] += eng.stats.get(k, 0)
         per_proof[prf.name] = {"target": prf.target, "paths": len(eng.paths), "obligations": len(eng.obligations),
@@ -214,6 +223,14 @@ def _run(prop, tier, seed, a, t0):
     bounded = []
     violations = []
     known_lines = []
+    for n, msg, tb, where in lib_raised:
+        d = os.path.join(VERIF, "replays", prop)
+        os.makedirs(d, exist_ok=True)
+        rp = os.path.join(d, re.sub(r"[^A-Za-z0-9_.-]+", "_", n)[:100] + "_harness-setup-raises.py")
+        with open(rp, "w") as fh:
+            fh.write(f"# obligation {n}/harness-setup-does-not-raise failed: the code under contract raised outside the call under test\n# " +
+                     "\n# ".join(tb.strip().splitlines()[-30:]) + "\nimport sys\nprint('no-failing-input-found')\nsys.exit(1)\n")
+        violations.append((f"{n}/harness-setup-does-not-raise", rp, f"the code under contract raised {msg[:160]} at {where}", False))
     for prf in proofs:
         pass
     natives = [n for n in api.NATIVES if prop in n.prop and (tier == "thorough" or not n.thorough_only)]
@@ -239,6 +256,23 @@ def _run(prop, tier, seed, a, t0):
                 else:
                     violations.append((f"bounded:{nt.name}", rp, txt, True))
         if rc not in (0, 1) or (rc != 0 and "NATIVE-VIOLATION" not in out):
+            # an exception that escapes from the LIBRARY while the stand-in drives it with inputs that are valid on the
+            # unchanged tree is a behaviour change of the library, not a checker fault: the innermost frame that lies
+            # in the repository or in /verif decides
+            tb = err + "\n" + out
+            frames = re.findall(r'File "([^"]+)", line (\d+), in (\S+)', tb)
+            own = [f for f in frames if f[0].startswith(REPO + os.sep) or f[0].startswith(VERIF + os.sep)]
+            last_err = [l for l in tb.splitlines() if re.match(r"^[A-Za-z_.]+(Error|Exception|Failure)\b", l)]
+            if own and own[-1][0].startswith(REPO + os.sep) and last_err and rc != -9:
+                d = os.path.join(VERIF, "replays", prop)
+                os.makedirs(d, exist_ok=True)
+                rp = os.path.join(d, f"bounded_{nt.name}_library_exception.py")
+                txt = f"the library raised {last_err[-1][:200]} at {os.path.relpath(own[-1][0], REPO)}:{own[-1][1]} ({own[-1][2]}) while the stand-in ran"
+                with open(rp, "w") as fh:
+                    fh.write("# replay of a bounded stand-in violation: re-run " + nt.script + "\n# " + "\n# ".join(tb.strip().splitlines()[-40:]) +
+                             "\nimport sys\nprint(%r)\nprint('REPLAY-VIOLATION')\nsys.exit(1)\n" % txt)
+                violations.append((f"bounded:{nt.name}", rp, txt, True))
+                continue
             print(f"bounded stand-in {nt.name} failed to run (rc={rc}):\n{err[-2000:]}")
             print(f"CHECKER-CRASH property={prop}")
             return 3
